@@ -212,6 +212,18 @@ func registerNatives(p *Program) {
 	rt("BytesEqual", func(r *Run, g *Goroutine, a []Value) Value {
 		return r.bytesEqual(a[0].(Slice), a[1].(Slice))
 	})
+	rt("AtVisibleOp", func(r *Run, g *Goroutine, a []Value) Value {
+		n := int(int64(a[0].(uint64)))
+		if n <= 0 {
+			r.inHook = true
+			r.callFunction(g, g.top, a[1], nil)
+			r.inHook = false
+			return nil
+		}
+		r.hooks = append(r.hooks, opHook{at: r.visibleOps + n, fn: a[1]})
+		return nil
+	})
+	rt("VisibleOps", func(r *Run, g *Goroutine, a []Value) Value { return uint64(r.visibleOps) })
 	rt("SameSymbol", func(r *Run, g *Goroutine, a []Value) Value {
 		ta, oka := a[0].(*sym.Term)
 		tb, okb := a[1].(*sym.Term)
